@@ -62,7 +62,8 @@ Definition draw_feats (r : rng) : feats :=
 Record fsig : Type := mkSig {
   gs_name : nat; gs_params : list ty; gs_ret : ty; gs_pure : bool;
   gs_rec : bool;         (* first parameter is a down-counter *)
-  gs_thr : bool          (* may let a user exception escape *)
+  gs_thr : bool;         (* may let a user exception escape *)
+  gs_try : bool          (* may execute a `try` (its body holds one, or it calls such a function) *)
 }.
 
 Inductive mode : Type := MAny | MPure | MStable.
@@ -89,15 +90,20 @@ Record genv : Type := mkGenv {
   gNoLoop : bool;            (* below a top-level `if`, qualified style: no loop *)
   gInTry : bool;             (* inside a `try` whose handlers catch every user exception *)
   gThr : bool;               (* inside a function that may let exceptions escape *)
-  gNoTry : bool              (* below a top-level `if` (either literal style): no `try` *)
+  gNoTry : bool;             (* below a top-level `if` (either literal style): no `try` *)
+  gNoSC : bool;              (* inside the condition of an exit `c => ..`: no short-circuit and / or *)
+  gCallTF : bool             (* only functions that never execute a `try` may be called here: inside
+                                a `try` body and inside such functions.  The pinned run time crashes
+                                when a callee's own `try` has caught an exception and the caller's
+                                `try` is then thrown to (reported as a finding)                    *)
 }.
 
 Definition set_L (E : genv) (l : list (ty * vkind)) : genv :=
-  mkGenv (gFe E) (gG E) (gF E) l (gCnt E) (gTop E) (gRet E) (gLoop E) (gPureF E) (gSelf E) (gNoIf E) (gNoLoop E) (gInTry E) (gThr E) (gNoTry E).
+  mkGenv (gFe E) (gG E) (gF E) l (gCnt E) (gTop E) (gRet E) (gLoop E) (gPureF E) (gSelf E) (gNoIf E) (gNoLoop E) (gInTry E) (gThr E) (gNoTry E) (gNoSC E) (gCallTF E).
 Definition set_loop (E : genv) (b : bool) : genv :=
-  mkGenv (gFe E) (gG E) (gF E) (gL E) (gCnt E) (gTop E) (gRet E) b (gPureF E) (gSelf E) (gNoIf E) (gNoLoop E) (gInTry E) (gThr E) (gNoTry E).
+  mkGenv (gFe E) (gG E) (gF E) (gL E) (gCnt E) (gTop E) (gRet E) b (gPureF E) (gSelf E) (gNoIf E) (gNoLoop E) (gInTry E) (gThr E) (gNoTry E) (gNoSC E) (gCallTF E).
 Definition set_cnt (E : genv) (c : list nat) : genv :=
-  mkGenv (gFe E) (gG E) (gF E) (gL E) c (gTop E) (gRet E) (gLoop E) (gPureF E) (gSelf E) (gNoIf E) (gNoLoop E) (gInTry E) (gThr E) (gNoTry E).
+  mkGenv (gFe E) (gG E) (gF E) (gL E) c (gTop E) (gRet E) (gLoop E) (gPureF E) (gSelf E) (gNoIf E) (gNoLoop E) (gInTry E) (gThr E) (gNoTry E) (gNoSC E) (gCallTF E).
 
 (* With the qualified literal style (fQual) nothing at the top level of a file nests an `if`
    (statement or expression) and a loop in either order: the pinned compiler rejects a
@@ -112,13 +118,14 @@ Definition set_cnt (E : genv) (c : list nat) : genv :=
    `if ({ if b then { return x }; true }) then ..` inside a function with "The `return' is
    not inside a function" (reported as a finding)                                          *)
 Definition no_ret (E : genv) : genv :=
-  mkGenv (gFe E) (gG E) (gF E) (gL E) (gCnt E) (gTop E) None (gLoop E) (gPureF E) (gSelf E) (gNoIf E) (gNoLoop E) (gInTry E) (gThr E) (gNoTry E).
+  mkGenv (gFe E) (gG E) (gF E) (gL E) (gCnt E) (gTop E) None (gLoop E) (gPureF E) (gSelf E) (gNoIf E) (gNoLoop E) (gInTry E) (gThr E) (gNoTry E) (gNoSC E) (gCallTF E).
 Definition set_try (E : genv) (b : bool) : genv :=
   mkGenv (gFe E) (gG E) (gF E) (gL E) (gCnt E) (gTop E) (gRet E) (gLoop E) (gPureF E) (gSelf E) (gNoIf E)
-         (gNoLoop E) b (gThr E) (gNoTry E).
+         (gNoLoop E) b (gThr E) (gNoTry E) (gNoSC E) true.
 (* may a call to g be placed here: throwing functions only where the exception is caught
    (or passed on by a function that is itself marked throwing)                             *)
-Definition thr_ok (E : genv) (g : fsig) : bool := (negb (gs_thr g) || gInTry E || gThr E)%bool.
+Definition thr_ok (E : genv) (g : fsig) : bool :=
+  ((negb (gs_thr g) || gInTry E || gThr E) && (negb (gCallTF E) || negb (gs_try g)))%bool.
 (* List constructs at the top level of a file: never below an `if` (statement or expression)
    and never with an `if` inside them -- the pinned compiler loses the List(T) imports /
    qualified names there (same family of defect as above: `empty?` of a List(String) "did not
@@ -128,16 +135,24 @@ Definition lists_ok (E : genv) : bool := ((fList (gFe E) || fDom (gFe E)) && neg
 Definition is_list (t : ty) : bool := match t with TList _ | TBox _ _ => true | _ => false end.
 Definition force_noif (E : genv) : genv :=
   mkGenv (gFe E) (gG E) (gF E) (gL E) (gCnt E) (gTop E) (gRet E) (gLoop E) (gPureF E) (gSelf E) true
-         (gNoLoop E) (gInTry E) (gThr E) (gNoTry E).
+         (gNoLoop E) (gInTry E) (gThr E) (gNoTry E) (gNoSC E) (gCallTF E).
 Definition sig_has_list (g : fsig) : bool := existsb is_list (gs_ret g :: gs_params g).
 Definition topq (E : genv) : bool := (gTop E && fQual (gFe E))%bool.
 Definition no_top_loop (E : genv) : genv :=
   if gTop E
   then mkGenv (gFe E) (gG E) (gF E) (gL E) (gCnt E) (gTop E) (gRet E) (gLoop E) (gPureF E) (gSelf E) (gNoIf E)
-              (fQual (gFe E) || gNoLoop E) (gInTry E) (gThr E) true
+              (fQual (gFe E) || gNoLoop E) (gInTry E) (gThr E) true (gNoSC E) (gCallTF E)
   else E.
+(* The condition of an exit `c => ..` holds no short-circuit `and` / `or`: the pinned compiler
+   crashes on `(if c then (b or false) else b) => false; ..; false` inside a function (the
+   constant first used in the skipped operand is left uninitialised: same defect as the
+   file-level one, reported as a finding)                                                *)
+Definition exit_cond (E : genv) : genv :=
+  let E1 := no_top_loop E in
+  mkGenv (gFe E1) (gG E1) (gF E1) (gL E1) (gCnt E1) (gTop E1) (gRet E1) (gLoop E1) (gPureF E1) (gSelf E1)
+         (gNoIf E1) (gNoLoop E1) (gInTry E1) (gThr E1) (gNoTry E1) true (gCallTF E1).
 Definition set_noif (E : genv) : genv :=
-  mkGenv (gFe E) (gG E) (gF E) (gL E) (gCnt E) (gTop E) (gRet E) (gLoop E) (gPureF E) (gSelf E) (topq E) (gNoLoop E) (gInTry E) (gThr E) (gNoTry E).
+  mkGenv (gFe E) (gG E) (gF E) (gL E) (gCnt E) (gTop E) (gRet E) (gLoop E) (gPureF E) (gSelf E) (topq E) (gNoLoop E) (gInTry E) (gThr E) (gNoTry E) (gNoSC E) (gCallTF E).
 
 Definition elem_types (fe : feats) : list bty :=
   [BMI; BBool] ++ (if fInt fe then [BInt] else []) ++ (if fStr fe then [BStr] else []).
@@ -342,13 +357,16 @@ Fixpoint gen_expr (sz : nat) (E : genv) (m : mode) (t : ty) (r : rng) {struct sz
           else if o <? 10 then
             if fStr (gFe E) then EPrim (if rb r 5 1 2 then PSEq else PSNe) (args2 TStr TStr)
             else EPrim PNot [gen_expr k E m TBool (ch r 1)]
-          else if gTop E then
+          else if (gTop E || gNoSC E)%bool then
             (* no short-circuit and/or at the top level of a file: the pinned compiler leaves an
                imported operation uninitialised when its first use is in the skipped operand
                (segmentation fault at the next use; reported as a finding)                    *)
             EPrim (if o <? 11 then PBAnd else PBOr) (args2 TBool TBool)
-          else if o <? 11 then EAnd (gen_expr k E m TBool (ch r 1)) (gen_expr k E m TBool (ch r 2))
-          else EOr (gen_expr k E m TBool (ch r 1)) (gen_expr k E m TBool (ch r 2))
+          (* the operands of and / or hold no `if` expression: the pinned compiler itself crashes
+             (segmentation violation at compile time) on `((if p then (p and q) else p) and q)`
+             (reported as a finding)                                                           *)
+          else if o <? 11 then EAnd (gen_expr k (force_noif E) m TBool (ch r 1)) (gen_expr k (force_noif E) m TBool (ch r 2))
+          else EOr (gen_expr k (force_noif E) m TBool (ch r 1)) (gen_expr k (force_noif E) m TBool (ch r 2))
       | TStr => EPrim PCat [gen_expr k E (sub_mode m) TStr (ch r 1); gen_lit TStr (ch r 2)]
       | TBox d n =>
           let o := rn r 3 5 in
@@ -375,7 +393,8 @@ Fixpoint gen_expr (sz : nat) (E : genv) (m : mode) (t : ty) (r : rng) {struct sz
       | [] =>
           match gSelf E, m with
           | Some g, MAny | Some g, MPure =>
-              if (ty_eqb (gs_ret g) t && (match m with MPure => gs_pure g | _ => true end))%bool
+              if (ty_eqb (gs_ret g) t && (match m with MPure => gs_pure g | _ => true end)
+                  && (negb (gCallTF E) || negb (gs_try g)))%bool
               then ECall (gs_name g)
                      (EPrim (PSub NMI) [ELoc 0; ELit (LNum NMI 1)]
                       :: map (fun jt => gen_expr k E MStable (snd jt) (ch r (Z.of_nat (fst jt) + 3)))
@@ -480,7 +499,7 @@ with gen_stmts (sz : nat) (E : genv) (vs : option ty) (r : rng) {struct sz} : li
     else if (c =? 4) && gLoop E then
       (* more loop exits: break / iterate under a generated condition *)
       let j := if rb r 1 1 2 then SBreak else SIterate in
-      if fExit (gFe E) then [SExit (gen_expr k (no_top_loop E) MAny TBool (ch r 2)) j]
+      if fExit (gFe E) then [SExit (gen_expr k (exit_cond E) MAny TBool (ch r 2)) j]
       else if gNoIf E then [] else [SIf (gen_expr k (no_top_loop E) MAny TBool (ch r 2)) [j] []]
     else if c <? 4 then simple k
     else if c <? 7 then assign k
@@ -521,18 +540,18 @@ with gen_stmts (sz : nat) (E : genv) (vs : option ty) (r : rng) {struct sz} : li
       (* exits and jumps *)
       match vs with
       | Some t =>
-          if fExit (gFe E) then [SExitV (gen_expr k (no_top_loop E) MAny TBool (ch r 1)) (gen_expr k E MAny t (ch r 2))]
+          if fExit (gFe E) then [SExitV (gen_expr k (exit_cond E) MAny TBool (ch r 1)) (gen_expr k E MAny t (ch r 2))]
           else assign k
       | None =>
           if gLoop E then
             let j := if rb r 1 1 2 then SBreak else SIterate in
-            if fExit (gFe E) then [SExit (gen_expr k (no_top_loop E) MAny TBool (ch r 2)) j]
+            if fExit (gFe E) then [SExit (gen_expr k (exit_cond E) MAny TBool (ch r 2)) j]
             else if gNoIf E then [] else [SIf (gen_expr k (no_top_loop E) MAny TBool (ch r 2)) [j] []]
           else if fExit (gFe E) then
             (* `c => s` is an `if` in disguise: at the top level s is generated under the
                restrictions that hold below a top-level `if`                              *)
             match (if gTop E then gen_stmts k (no_top_loop E) None (ch r 7) else assign k) with
-            | [s] => if is_exit s then [] else [SExit (gen_expr k (no_top_loop E) MAny TBool (ch r 2)) s]
+            | [s] => if is_exit s then [] else [SExit (gen_expr k (exit_cond E) MAny TBool (ch r 2)) s]
             | _ => []
             end
           else assign k
@@ -590,13 +609,14 @@ Definition gen_fun (sz : nat) (fe : feats) (G : list (ty * vkind)) (fs : list fs
   let name := match reuse with Some g => gs_name g | None => fresh_name fs end in
   let pure := match reuse with Some g => gs_pure g | None => rb r 6 1 2 end in
   let thr := (fExn fe && negb pure && rb r 13 1 3)%bool in
-  let me := mkSig name ps ret pure isrec thr in
+  let maytry := (fExn fe && negb pure && rb r 14 1 2)%bool in
+  let me := mkSig name ps ret pure isrec thr maytry in
   let np := List.length ps in
   let nloc := Z.to_nat (rn r 7 3) in
   let ncnt := if fWhile fe then Z.to_nat (rn r 8 2) else 0%nat in
   let ltys := map (fun i => gen_ty fe r (Z.of_nat i + 50)) (seq 0 nloc) in
   let pframe := map (fun t => (t, KConst)) ps in
-  let E0 := mkGenv fe G fs pframe [] false (Some ret) false pure None false false false false false in
+  let E0 := mkGenv fe G fs pframe [] false (Some ret) false pure None false false false false (negb maytry) false (negb maytry) in
   (* initialisers of the locals: each sees the parameters and the earlier locals *)
   let locals :=
       (fix go (i : nat) (ts : list ty) (fr : list (ty * vkind)) : list (ty * expr) :=
@@ -608,7 +628,7 @@ Definition gen_fun (sz : nat) (fe : feats) (G : list (ty * vkind)) (fs : list fs
   let cnts := map (fun _ => (TMI, ELit (LNum NMI 0))) (seq 0 ncnt) in
   let frame := pframe ++ map (fun t => (t, KVar)) ltys ++ map (fun _ => (TMI, KCnt)) (seq 0 ncnt) in
   let E := mkGenv fe G fs frame (seq (np + nloc) ncnt) false (Some ret) false pure
-                  (if isrec then Some me else None) false false false thr false in
+                  (if isrec then Some me else None) false false false thr (negb maytry) false (negb maytry) in
   let guard := if isrec
                then [SExitV (EPrim (PLe NMI) [ELoc 0; ELit (LNum NMI 0)]) (gen_expr 1 (set_L E0 pframe) MPure ret (ch r 9))]
                else [] in
@@ -636,7 +656,7 @@ Fixpoint gen_items (n : nat) (sz : nat) (fe : feats) (G : list (ty * vkind)) (cn
                                    | _ => EGlob k
                                    end])) (seq 0 (List.length G))
   | S n' =>
-      let E := mkGenv fe G fs [] cnt true None false false None false false false false false in
+      let E := mkGenv fe G fs [] cnt true None false false None false false false false false false false in
       let c := rn r 0 10 in
       if c <? 3 then
         let t := gen_ty fe r 1 in
